@@ -93,6 +93,9 @@ META = dict(
                 "form (cross-checked against the chord form at start-up)"),
 )
 
+META["rule"] += (
+    " " + 'Added after the second round of seeded changes: rectangular-grid axes are passed as float64 / float32 / integer arrays or lists (mixed across axes).')
+
 STYLES = ["generic", "pole", "antimeridian", "coincident", "antipodal",
           "regular", "mixed"]
 
